@@ -31,8 +31,8 @@ DISCARD_HEAVY_OK = False
 
 
 def plan(tier, seed):
-    n = 8000 if tier == "quick" else 400000
-    k = 20000 if tier == "quick" else 1000000
+    n = 16000 if tier == "quick" else 1200000
+    k = 40000 if tier == "quick" else 3000000
     specs = [{"kind": "strategy", "start": p * (n // NSHARDS), "count": n // NSHARDS} for p in range(NSHARDS)]
     specs += [{"kind": "funfit", "start": p * (k // NSHARDS), "count": k // NSHARDS} for p in range(NSHARDS)]
     return specs
